@@ -236,7 +236,7 @@ fn eval_file(dna_bytes: &[u8], ctx: &mut Ctx) -> Result<(), (Failure, Value)> {
 
 fn worker(ctx: &mut Ctx) {
     let (ns, nf) = match ctx.cfg.tier {
-        Tier::Quick => (8_000u64, 2_000u64),
+        Tier::Quick => (14_000u64, 4_000u64),
         Tier::Thorough => (200_000u64, 40_000u64),
     };
     ctx.extra.insert(
